@@ -383,7 +383,12 @@ func c08Bodies(c *Ctx) {
 			fmt.Sprintf("TS server for %s: await req.json() present=%v, expected %v (the Go and TS clients send a body exactly for POST, PUT, PATCH)", v, sb, wantBody))
 		if v == "POST" {
 			r.Check(strings.Contains(co, `"Content-Type": "application/json"`), "R08d", "TS client labels the body application/json", "", "the TS client does not send Content-Type: application/json (the Go server selects its codec by that header)")
-			r.Check(strings.Contains(co, "await resp.json()"), "R08d", "TS client reads the response as JSON", "", "the TS client does not read resp.json()")
+			// the value awaited from fetch is the one whose .json() is returned, whatever it is called
+			respJSON := false
+			if m := regexp.MustCompile(`const (\w+) = await this\.fetchFn\(`).FindStringSubmatch(co); m != nil {
+				respJSON = strings.Contains(co, "await "+m[1]+".json()")
+			}
+			r.Check(respJSON, "R08d", "TS client reads the response as JSON", "", "the TS client does not read resp.json()")
 			okResp := false
 			if i := strings.Index(so, "JSON.stringify(result"); i >= 0 {
 				rest := so[i:]
@@ -395,6 +400,12 @@ func c08Bodies(c *Ctx) {
 		}
 	}
 }
+
+var (
+	c08TSSendRe = regexp.MustCompile(`\b[\w.]+\.(set|append)\("zqquery"`)
+	c08GoSendRe = regexp.MustCompile(`\b[\w.]+\.(Set|Add)\("zqquery"`)
+	c08TSReadRe = regexp.MustCompile(`\b[\w.]+\.(get|getAll)\("zqquery"\)`)
+)
 
 // c08Carriers: every request field has a carrier in both TS modules for every verb.
 func c08Carriers(c *Ctx) {
@@ -409,9 +420,10 @@ func c08Carriers(c *Ctx) {
 			r.Unres("R08e", "verb "+v, "", "units do not reconstruct for this verb")
 			continue
 		}
-		tsSends := strings.Contains(co, `params.set("zqquery"`)
-		goSends := strings.Contains(gc, `queryParams.Set("zqquery"`)
-		tsReads := strings.Contains(so, `params.get("zqquery")`)
+		// whatever the emitted locals are called: <x>.set("zqquery", …) / <x>.Set("zqquery", …) / <x>.get("zqquery")
+		tsSends := c08TSSendRe.MatchString(co)
+		goSends := c08GoSendRe.MatchString(gc)
+		tsReads := c08TSReadRe.MatchString(so)
 		if !body {
 			r.Check(tsSends, "R08e", "TS client sends query-annotated fields in the URL for "+v, "",
 				fmt.Sprintf("for %s (no request body) the TS client does not put the query-annotated field into the URL: the field reaches no server (Go client sends it: %v)", v, goSends))
@@ -429,10 +441,7 @@ func (c *Ctx) observeEmittedText(pkg, suffix string, s c03Scenario) string {
 	if ri == nil {
 		return ""
 	}
-	run := c.W.NewRun(map[string]int{}, false)
-	run.InlineAll, run.FollowSlices, run.Fix = true, true, invariantFix
-	run.Inject = s.inject("file.Services@", "file.Services@.Methods@", "file")
-	run.Start(ri.Fn)
+	run := c.runScenario(ri.Fn, s)
 	if run.Aborted != "" {
 		return ""
 	}
